@@ -9,6 +9,8 @@ open PC.Drv PC.Load
 
 /-- `text{{.NAME}}text…` -/
 def parseTpl (s : String) : Tpl :=
+  -- `{{ .NAME }}` (blanks inside the delimiters) is the same action as `{{.NAME}}` for text/template
+  let s := (s.replace "{{ ." "{{.").replace " }}" "}}"
   match s.splitOn "{{." with
   | [] => []
   | first :: rest =>
